@@ -40,12 +40,15 @@ class C03(Spec):
     ]
     ASSUMPTIONS = ['trial counts >= 1, every stimulus has at least one sample, delays >= 0']
     RULE = ('queues of 1-7 stimuli with unequal trial counts on every policy and option (keep_complete_waveforms, '
-            'seed, group_size 1..n+1 incl. non-divisors), drained in random chunkings and popped again afterwards; '
+            'seed, group_size 1..n+1 incl. non-divisors, n+5 and 1000; keep_complete_waveforms=False also on the blocked-random '
+            'class), drained in random chunkings and popped again afterwards; half of the random cases re-spelled by the '
+            'caller (see C02: constructor routes, extend() broadcasting, argument types, metadata, explicit durations, '
+            'clone, bystander queue, meddling caller); a scale stream (2000-3001 trials of one stimulus, 40 stimuli); '
             'thorough adds every (policy/option, <=4 stimuli, trials<=3) combination. Non-trivial = >= 2 stimuli with '
             'unequal trial counts or a partial last group.')
     exhaustive_note = {
-        'quick': 'every policy/option x <= 3 stimuli x trials in {1,2} (lengths/delays fixed)',
-        'thorough': 'every policy/option (group sizes 1..n+1) x <= 4 stimuli x trials in {1,2,3} (lengths/delays fixed)',
+        'quick': 'every policy/option (group sizes 1..n+1, n+5) x <= 3 stimuli x trials in {1,2} (lengths/delays fixed)',
+        'thorough': 'every policy/option (group sizes 1..n+1, n+5) x <= 4 stimuli x trials in {1,2,3} (lengths/delays fixed)',
     }
     SEARCH_SECONDS = {'quick': 20, 'thorough': 240}
 
@@ -55,7 +58,8 @@ class C03(Spec):
             if name == 'interleaved-nokeep':
                 d.update(policy='interleaved', keep=0)
             yield d
-        for g in range(1, n + 2):
+        yield {'policy': 'blockedrandom', 'keep': 0, 'gsize': 0, 'seed': 11}     # inherited option, non-default
+        for g in list(range(1, n + 2)) + [n + 5]:
             yield {'policy': 'grouped', 'keep': 1, 'gsize': g, 'seed': 0}
 
     def cases(self, rng, tier):
@@ -78,6 +82,32 @@ class C03(Spec):
             c['stims'] = QC.rand_stims(rng, nst, max_len=7, max_trials=rng.choice([2, 4, 6]))
             N = drain(c)
             c['ops'] = [['pop', n] for n in rng.chunks(N, max_parts=rng.choice([1, 3, 10]))] + [['pop', 6], ['pop', 1]]
+            if _ % 2:
+                # the same queue said differently: constructor routes, extend() broadcasting, argument types,
+                # metadata, explicit durations, a clone, a bystander queue on the same sources, a meddling caller
+                for st in c['stims']:
+                    if rng.random() < 0.2:
+                        st['xdur'] = rng.choice([-1, 1, 3, 25])
+                QC.spell(rng, c, finite_delays=True, p=1.0)
+                c['ops'] = [['pop', n] for n in rng.chunks(drain(c), max_parts=rng.choice([1, 3, 10]))] \
+                    + [['pop', 6], ['pop', 1]]
+            yield c
+        # scale: thousands of trials of one stimulus next to single trials of others; many stimuli
+        for it in range(3 if tier == 'quick' else 14):
+            nst = rng.choice([2, 3, 40])
+            c = {'kind': 'scale', 'fs': rng.choice(QC.FS_LIST), 't0': 0}
+            c.update(QC.policy_fields(QC.POLICIES[it % len(QC.POLICIES)] if tier != 'quick' else
+                                      rng.choice(QC.POLICIES), rng, nst))
+            c['stims'] = [{'src': 'arr', 'len': rng.randint(1, 2), 'trials': 1, 'delays': [rng.choice([0, 1])]}
+                          for _ in range(nst)]
+            if nst <= 3:
+                c['stims'][rng.randrange(nst)]['trials'] = rng.choice([2000, 3001])
+            else:
+                c['enc'] = 64
+                for st in c['stims']:
+                    st['trials'] = rng.randint(1, 3)
+            N = drain(c)
+            c['ops'] = [['pop', N // 2], ['pop', N - N // 2], ['pop', 5]]
             yield c
 
     def model_lines(self, c):
@@ -171,6 +201,12 @@ class C03(Spec):
         for s in tr.steps:
             if s['cr'] != sum(req):
                 return f'count_requested_trials() = {s["cr"]}, requested {sum(req)}'
+            if s['reqs'] != req:
+                return f'requested trials per stimulus read {s["reqs"]}, requested {req}'
+        if any(s['n_empty'] for s in tr.steps[:e0]):
+            return '"empty" notification before the queue was empty'
+        if not tr.steps[e0]['n_empty']:
+            return 'is_empty() turned True without an "empty" notification'
         for s in tr.steps[e0 + 1:]:
             if s['add'] or any(x != ('Z',) for x in s['cells']):
                 return f'{s["op"]} on an empty queue produced a trial or non-zero output'
@@ -194,7 +230,9 @@ class C03(Spec):
             yield dict(c, ops=ops[:i] + [['pop', ops[i][1] + ops[i + 1][1]]] + ops[i + 2:])
         for i in range(len(c['stims'])):
             if len(c['stims']) > 1:
-                yield dict(c, stims=c['stims'][:i] + c['stims'][i + 1:])
+                yield QC.drop_stim(c, i)
+        for c2 in QC.unspell_candidates(c):
+            yield c2
         for i, st in enumerate(c['stims']):
             for f, v in (('trials', st['trials'] - 1), ('len', st['len'] - 1)):
                 if v >= 1:
